@@ -17,8 +17,10 @@ def transition_check(sc, tier, seed, prop, models, quick_n, rule, thorough_n=Non
     exe = build_harness(sc)
     devs = open_devs()
     allcases = []
-    for module in models:
-        out, st = run_tlc(sc, module, mc_cfg(module, devs), timeout=1500)
+    from concurrent.futures import ThreadPoolExecutor
+    with ThreadPoolExecutor(max_workers=max(1, len(models))) as ex:
+        runs = list(ex.map(lambda mod: run_tlc(sc, mod, mc_cfg(mod, devs), timeout=1500, workers=max(4, NCPU // max(1, len(models)))), models))
+    for module, (out, st) in zip(models, runs):
         require_tlc_clean(st, module)
         v.add_tlc(module, st)
         cases = join_cases(tlc_json_lines(out))
@@ -313,7 +315,87 @@ def c18(sc, tier, seed):
                             assumptions=['BITFIELD wrap-around is modelled for values within two wraps of the type range (the universe only contains such values)'])
 
 
-CHECKS = {'C02': c02, 'C18': c18, 'C15': c15, 'C08': c08, 'C14': c14, 'C10': c10, 'C09': c09, 'C07': c07, 'C06': c06, 'C03': c03, 'C04': c04, 'C05': c05}
+def c01(sc, tier, seed):
+    """Framing: TLC-enumerated chunkings of command streams written to a real socket; raw reply bytes compared."""
+    import random as _r
+    v = Verdict('C01', tier, seed)
+    exe = build_harness(sc)
+    devs = open_devs()
+    out, st = run_tlc(sc, 'MC_framing', mc_cfg('MC_framing', devs), timeout=900)
+    require_tlc_clean(st, 'MC_framing')
+    v.add_tlc('MC_framing', st)
+    ideal, real = {}, {}
+    for op in tlc_json_lines(out):
+        if op.get('framing'):
+            (real if op.get('dev') else ideal)[json.dumps([op['cmds'], op['chunks']])] = op
+    cases = []
+    for k, op in ideal.items():
+        c = {'cmds': op['cmds'], 'chunks': op['chunks'], 'replies': op['replies'], 'delay_us': 300}
+        if k in real and real[k]['replies'] != op['replies']:
+            c['replies'] = real[k]['replies']
+            c['dev'] = True
+        cases.append(c)
+    rnd = _r.Random(seed)
+    singles = [c for c in cases if len(c['chunks']) <= 2]
+    doubles = [c for c in cases if len(c['chunks']) > 2]
+    rnd.shuffle(doubles)
+    chosen = singles + (doubles[:1500] if tier == 'quick' else doubles)
+    # pipelines of depth 1..16 in one write, and arguments larger than the server's 8 KiB read buffer cut around
+    # its boundaries (generated here: a 70000-byte argument is not something to enumerate byte by byte in TLC)
+    ping = [[80, 73, 78, 71]]
+    pong = {'t': 'simple', 'v': 'PONG'}
+    for depth in range(1, 17):
+        chosen.append({'cmds': [ping] * depth, 'chunks': [14 * depth], 'replies': [pong] * depth, 'delay_us': 0})
+    for size in (9000, 70000):
+        big = [[[83, 1], [69, 1], [84, 1]], [[98, 1]], [[120, size - 3], [13, 1], [10, 1], [0, 1]]]      # SET b x...x\r\n\0
+        getb = [[[71, 1], [69, 1], [84, 1]], [[98, 1]]]
+        val = [120] * (size - 3) + [13, 10, 0]
+        total = len(b'*3\r\n$3\r\nSET\r\n$1\r\nb\r\n$%d\r\n' % size) + size + 2 + len(b'*2\r\n$3\r\nGET\r\n$1\r\nb\r\n')
+        for cut in [1, 4095, 8191, 8192, 8193, 16384, total - 23, total - 1] + ([c_ for c_ in (65535, 65536, 65537) if c_ < total]):
+            if 0 < cut < total:
+                chosen.append({'bigcmds': [big, getb], 'cmds': [], 'chunks': [cut, total - cut], 'delay_us': 1000,
+                               'replies': [{'t': 'simple', 'v': 'OK'}, {'t': 'bulk', 's': val}]})
+        chosen.append({'bigcmds': [big, getb], 'cmds': [], 'chunks': [8192] * (total // 8192 + 1), 'delay_us': 200,
+                       'replies': [{'t': 'simple', 'v': 'OK'}, {'t': 'bulk', 's': val}]})
+    for i, c in enumerate(chosen):
+        c['id'] = i
+    cf, rf = sc.path('fr-cases.jsonl'), sc.path('fr-out.jsonl')
+    with open(cf, 'w') as f:
+        for c in chosen:
+            f.write(json.dumps(c, separators=(',', ':')) + '\n')
+    port = int(os.environ.get('VERIF_PORT', 21000)) + 1200
+    p = subprocess.run([exe, 'framing', '-cases', cf, '-out', rf, '-workers', str(NCPU), '-port', str(port)], stdout=subprocess.PIPE, stderr=subprocess.PIPE, text=True)
+    if p.returncode != 0:
+        raise Inconclusive('framing engine failed: ' + p.stderr[-2000:])
+    results = {r['id']: r for r in (json.loads(l) for l in open(rf))}
+    nontriv = 0
+    for c in chosen:
+        r = results.get(c['id'])
+        v.cov['evaluations'] += 1
+        if r is None:
+            v.inconclusive.append('framing case %d: no result' % c['id'])
+        elif r['status'] == 'ok':
+            v.cov['traces_validated_against_impl'] += 1
+            nontriv += 1 if len(c['chunks']) > 1 else 0
+        elif r['status'] == 'misframed' and c.get('dev'):
+            v.cov['traces_validated_against_impl'] += 1
+            v.record_known('D_UNKNOWN_COMMAND_ERROR_ECHOES_CRLF', 'reply bytes %r' % r.get('misframed_reply', '')[:80])
+        elif r['status'] in ('viol', 'crash', 'noreply', 'misframed'):
+            c2 = dict(c)
+            if 'bigcmds' in c2:
+                c2['replies'] = '(omitted)'
+            v.record_violation(c2, {'fail': {'status': r['status'], 'cmd': 'stream of %d command(s), chunks %s' % (len(c.get('cmds') or c.get('bigcmds')), c['chunks'][:6]), 'detail': r.get('detail', '')[:600]}}, engine='framing')
+        else:
+            v.inconclusive.append('framing case %d: %s' % (c['id'], r.get('detail')))
+    v.cov['distinct_nontrivial'] = nontriv
+    v.cov['engines']['framing'] = {'chunked_scripts': len(chosen), 'single_cut': len(singles), 'double_cut': len(chosen) - len(singles) - 16}
+    v.cov['samples'].append({'cmds': [cmd_text(x) for x in chosen[5]['cmds']], 'chunks': chosen[5]['chunks']})
+    v.assumptions = ['the kernel may coalesce chunks written 300 us apart into one read of the server: that weakens coverage, never soundness',
+                     'the reference for split-independence is the same stream sent one command at a time on a fresh identical state; each reference reply is additionally checked against the specification and for being exactly one well-formed RESP value; a PING sentinel detects surplus or missing bytes']
+    return v.finish(rule='TLC explores the socket read-loop model (Framing.tla) for 9 command streams with binary-unsafe arguments (empty, CR, LF, CRLF, NUL, 0xff, RESP-looking text as key, value, field, member, element) under every chunking with at most 2 cuts, checks InOrder and SplitIndependent on the model and prints each chunking; every single cut and (quick: 1500 seeded; thorough: all) double cuts are written to a real socket and the raw reply bytes compared with the unsplit run; plus pipelines of depth 1..16 in one write and 9000/70000-byte arguments cut around the 8 KiB read-buffer boundaries. Non-trivial = script with at least one cut.')
+
+
+CHECKS = {'C01': c01, 'C02': c02, 'C18': c18, 'C15': c15, 'C08': c08, 'C14': c14, 'C10': c10, 'C09': c09, 'C07': c07, 'C06': c06, 'C03': c03, 'C04': c04, 'C05': c05}
 
 
 def replay_path(path):
